@@ -52,6 +52,9 @@ pub fn line(out: Option<&str>, cmd: &str, args: &[String]) -> Vec<String> {
 
 const FLAGS: [&str; 3] = ["fa", "fb", "fc"];
 const VALS: [&str; 4] = ["red", "blue", "7", "x1"];
+/// initial values of v0 / v1 only (they reach calls in condition position as bound arguments):
+/// blanks together with backslashes, a trailing backslash, an inner quote
+const INIT_VALS: [&str; 9] = ["red", "blue", "7", "x1", "C:\\Program Files\\new", "a\\tb c", "tail\\", "it's", "a b"];
 
 /// boolean expression over flags / literals with `and`, `or` and parenthesised groups in every
 /// position (first, after `or`, after `and`, nested, empty)
@@ -260,8 +263,8 @@ pub fn init_vars(rng: &mut Rng) -> String {
         // (values with blanks around a falsy word are truthy: only the exact words are falsy)
         v.push(format!("{}={}", enc_str(f), enc_str(rng.pick_s(&["true", "false", "0", "yes", "no", "", "abc", " ", " no ", "0 ", "\u{3000}", "No", "FALSE"]))));
     }
-    v.push(format!("{}={}", enc_str("v0"), enc_str(rng.pick_s(&VALS))));
-    v.push(format!("{}={}", enc_str("v1"), enc_str(rng.pick_s(&VALS))));
+    v.push(format!("{}={}", enc_str("v0"), enc_str(rng.pick_s(&INIT_VALS))));
+    v.push(format!("{}={}", enc_str("v1"), enc_str(rng.pick_s(&INIT_VALS))));
     v.push(format!("{}={}", enc_str("n0"), enc_str(&rng.below(3).to_string())));
     v.sort();
     v.join(",")
